@@ -640,7 +640,7 @@ def lift_block(blk, log, meta, canary=False):
                         j = i + 1
                         if sig[j].text == 'mut':
                             j += 1
-                        if sig[j].text == a['until_let']:
+                        if sig[j].text in a['until_let'].split('|'):   # first `let` of any of the listed names
                             end = i
                             break
                     i += 1
